@@ -45,8 +45,9 @@ fn body(ctx: &mut Ctx) {
     );
     known.flush(ctx, "alloc_grid");
 
-    let n = ctx.scale(5_000, 150_000);
-    ctx.proptest("dynamic", n, dynamic::case_strategy(ctx.scale(40, 80)), |c, obs| dynamic::run_case(c, &known, obs));
+    let n = ctx.scale(6_000, 180_000);
+    let restrict = known.is_open(model::SIG_DYN_LOST_BUCKET) || known.is_open(model::SIG_HINT_NONMULT);
+    ctx.proptest("dynamic", n, dynamic::case_strategy(ctx.scale(40, 80), restrict), |c, obs| dynamic::run_case(c, &known, obs));
     known.flush(ctx, "dynamic");
 
     let n = ctx.scale(1_000, 30_000);
